@@ -168,6 +168,13 @@ func c04Templates(g *Gen) []c04Case {
 		{tables: csv, sql: "SELECT a.k AS x, b.d AS y FROM t0.csv a LEFT JOIN t1.csv b ON a.k = b.k WHERE a.a >= 0", planOnly: true},
 		{tables: csv, sql: "SELECT q.x FROM (SELECT a.k AS x, b.d AS y, b.a AS z FROM t0.csv a OUTER JOIN t1.csv b ON a.k = b.k AND a.a = b.d) q", planOnly: true},
 		{tables: csv, sql: "SELECT r.i AS x, a.k AS y FROM range(start=>0, end=>3) r JOIN t0.csv a ON r.i = a.k", planOnly: true},
+		// a common table expression referenced more than once: the SAME physical node occurs several times in the plan,
+		// each occurrence is pruned for its own consumer (a rule that edits a node in place would damage the other one)
+		{tables: csv, sql: "WITH x AS (SELECT a.k AS g, COUNT(*) AS c, SUM(a.a) AS s, MAX(a.a) AS m FROM t0.csv a GROUP BY a.k) SELECT p.g1 AS g1, p.s1 AS s1, q.m2 AS m2 FROM (SELECT g AS g1, s AS s1 FROM x) p JOIN (SELECT g AS g2, m AS m2 FROM x) q ON p.g1 = q.g2"},
+		{tables: csv, sql: "WITH x AS (SELECT a.k AS g, SUM(a.a) AS s, COUNT(*) AS c, MIN(a.c) AS lo, MAX(a.c) AS hi FROM t0.csv a GROUP BY a.k) SELECT p.g1 AS g1, p.c1 AS c1, q.h2 AS h2 FROM (SELECT g AS g1, c AS c1 FROM x) p JOIN (SELECT g AS g2, hi AS h2, c AS c2 FROM x) q ON p.g1 = q.g2 WHERE q.c2 >= 1"},
+		{tables: csv, sql: "WITH x AS (SELECT a.k AS g, a.a AS u, a.b AS v, a.c AS w FROM t0.csv a WHERE a.k IS NOT NULL) SELECT p.u1 AS u1, q.w2 AS w2 FROM (SELECT g AS g1, u AS u1, v AS v1 FROM x) p JOIN (SELECT g AS g2, w AS w2 FROM x) q ON p.g1 = q.g2 WHERE p.v1 != 'q'"},
+		{tables: csv, sql: "WITH x AS (SELECT a.k AS g, b.d AS d, a.a AS u, b.a AS v FROM t0.csv a JOIN t1.csv b ON a.k = b.k) SELECT p.u1 AS u1, q.d2 AS d2, r.v3 AS v3 FROM (SELECT g AS g1, u AS u1 FROM x) p JOIN (SELECT g AS g2, d AS d2 FROM x) q ON p.g1 = q.g2 JOIN (SELECT g AS g3, v AS v3 FROM x) r ON q.g2 = r.g3"},
+		{tables: csv, sql: "WITH x AS (SELECT a.k AS g, COUNT(*) AS c, SUM(a.a) AS s, MAX(a.a) AS m FROM t0.csv a GROUP BY a.k) SELECT p.g1 AS g1, p.m1 AS m1, q.s2 AS s2 FROM (SELECT g AS g1, m AS m1 FROM x) p LOOKUP JOIN (SELECT g AS g2, s AS s2 FROM x) q ON p.g1 = q.g2"},
 	}
 	return cs
 }
